@@ -87,6 +87,13 @@ Proof.
   assert (H1 : 1 <=! 0). { eapply le_rw; [| |exact Hs]; [ring | rewrite <- E; ring]. }
   apply (of_01 K OFK). apply (of_antisym K OFK); [apply one_nonneg | exact H1].
 Qed.
+Lemma one_le_sq e : 1 <=! e -> 1 <=! e * e.
+Proof.
+  intros H. apply (of_add K OFK _ _ (- (1))) in H.
+  assert (H0 : 0 <=! e - 1) by (eapply le_rw; [| |exact H]; ring).
+  pose proof (add_nonneg _ _ (sq_nonneg (e - 1)) (add_nonneg _ _ H0 H0)) as H1.
+  apply (of_add K OFK _ _ 1) in H1. eapply le_rw; [| |exact H1]; ring.
+Qed.
 Lemma ltb_irrefl a : oltb K a a = false.
 Proof. rewrite (of_ltb K OFK). now rewrite (ole_refl K OFK). Qed.
 
